@@ -56,7 +56,7 @@ Definition f8_sched : list label :=
   [LRunCall; LRunBegin; LBootLock ORun; LCb ORun (CbSome [(0, 0)]%N); LBootLaunch ORun; LToRunning;
    LKRun 0 0%N;
    LReloadCall 0; LRlLock 0; LCb (ORel 0) (CbSome [(0, 1); (1, 1)]%N);
-   LStopBegin (ORel 0); LWCall 0 0%N; LKExit 0 0%N None; LKSend 0; LWUnblock 0; LWRet 0 0%N;
+   LStopBegin (ORel 0); LWCall 0 0%N; LKExit 0 0%N None; LWUnblock 0; LWRet 0 0%N;
    LStopJoin (ORel 0); LRlSetCfg 0;
    LStopApi 0; LSSignal 0; LSelStop; LTransIf; LStopBegin ORun;
    LWCall 1 1%N; LWCall 2 0%N; LWUnblock 2; LWRet 2 0%N].
